@@ -86,6 +86,10 @@ def refs_paired(r, F):
         r.require(bool(lens) and plus1 and on_notifiers and 2 in recv.args, em, "inc_refs(notifiers.len()+1)",
                   "the inserted record is counted once per waiter plus once for the returned handle",
                   "emplace does not count one reference per notified waiter plus one for the returned handle", ln=b.term.ln)
+    incs_em = [b.idx for b in em.calls_to(INC)]
+    r.require(bool(incs_em) and em.must_pass(0, incs_em), em, "every path of emplace counts the handles it hands out",
+              "both the normal and the disk-only path count the references", "a path of emplace returns without counting the references of the handles that insert_inner builds "
+              "(the first drop underflows / releases the record while other handles are alive)", ln=em.lo)
     # insert_inner: one handle per notifier (inside the loop over `notifiers`), one returned
     ii = F.fn("foyer_memory::raw::RawCache::insert_inner")
     aggs = [(b.idx, s) for b in ii.blocks if not b.cleanup for s in b.stmts if s.k == "assign" and s.rv.k == "agg" and s.rv.j.get("adt") == ENTRY]
